@@ -84,7 +84,8 @@ def main():  # noqa: PLR0912, PLR0915
         return 3
 
     open_findings = [f for f in findings["findings"] if f["property"] == prop and f["status"] == "open"]
-    names = sorted(n for n, c in harness.REGISTRY.items() if prop in c.props)
+    names = sorted(n for n, c in harness.REGISTRY.items() if prop in c.props and (tier == "thorough" or c.tier == "quick"))
+    skipped = sorted(n for n, c in harness.REGISTRY.items() if prop in c.props and tier == "quick" and c.tier != "quick")
     timeout_ms = 10000 if tier == "quick" else 60000
     jobs = []
     for n in names:
@@ -200,6 +201,7 @@ def main():  # noqa: PLR0912, PLR0915
             "rule": "deductive: one obligation per feasible pair of (code path, spec path) and per compared value; bounded: see each monitor's bound",
             "samples": samples[:8] or [{"note": "no samples"}],
             "undecided": undecided[:40],
+            "contracts_only_in_thorough_tier": skipped,
             "known_findings": [f["id"] for f in open_findings],
         },
         "assumptions": sorted(assumed)
